@@ -111,7 +111,7 @@ def add_spy(text):
 
 # ------------------------------------------------------------------ history
 ACTORS = ['pa', 'pb', 'pc', 'admin']
-RTYPES = ['wf', 'env', 'cron', 'exec', 'wb', 'adef', 'csrc', 'dyn']
+RTYPES = ['wf', 'env', 'cron', 'exec', 'wb', 'adef', 'csrc', 'dyn', 'evt']
 
 
 def gen_history(rng):
@@ -177,7 +177,7 @@ class Model(object):
         if actor == 'admin' or r['owner'] == actor:
             return True
         if r['rtype'] in ('wf', 'env', 'cron', 'wb', 'adef', 'csrc',
-                          'dyn') and r['scope'] == 'public':
+                          'dyn', 'evt') and r['scope'] == 'public':
             return True
         if r['rtype'] == 'wf' and \
                 self.members.get((r['id'], actor)) == 'accepted':
@@ -241,6 +241,10 @@ class Runner15(runner.Runner):
                                   x.project_id)
                 for x in db.get_cron_triggers():
                     view[x.id] = ('cron', str(x.remaining_executions),
+                                  x.project_id)
+                for x in db.get_event_triggers():
+                    view[x.id] = ('evt', json.dumps(x.workflow_input,
+                                                    sort_keys=True),
                                   x.project_id)
                 for x in db.get_workflow_executions():
                     view[x.id] = ('exec', str(x.description), x.project_id)
@@ -342,6 +346,20 @@ class Runner15(runner.Runner):
                             'code_source_id': srcs[0]['id'],
                             'code_source_name': srcs[0]['name'],
                             'scope': op['scope'], 'namespace': ''})
+                elif rtype == 'evt':
+                    wfs = [x for x in model.res if x['alive'] and
+                           x['rtype'] == 'wf' and model.visible(actor, x)]
+                    if not wfs:
+                        rec['ok'] = 'skip'
+                        return
+                    with db.transaction():
+                        r = db.create_event_trigger({
+                            'name': name, 'workflow_id': wfs[0]['id'],
+                            'workflow_input': {'secret': actor},
+                            'workflow_params': {}, 'exchange': 'ex',
+                            'topic': 'tp-%s' % name,
+                            'event': 'ev-%d' % len(model.res),
+                            'trust_id': None, 'scope': op['scope']})
                 elif rtype == 'cron':
                     wfs = [x for x in model.res if x['alive'] and
                            x['rtype'] == 'wf' and model.visible(actor, x)]
@@ -385,7 +403,7 @@ class Runner15(runner.Runner):
                     'rtype': rtype, 'name': name, 'owner': actor,
                     'scope': op['scope'] if rtype in ('wf', 'env', 'wb',
                                                        'adef', 'csrc',
-                                                       'dyn')
+                                                       'dyn', 'evt')
                     else 'private', 'id': r.id, 'alive': True,
                     'task_id': rec.get('task_id'),
                     'action_id': rec.get('action_id')})
@@ -406,6 +424,7 @@ class Runner15(runner.Runner):
         getter = {'wf': db.get_workflow_definition,
                   'env': db.get_environment,
                   'cron': db.get_cron_trigger,
+                  'evt': db.get_event_trigger,
                   'exec': db.get_workflow_execution,
                   'wb': db.get_workbook,
                   'adef': db.get_action_definition,
@@ -449,6 +468,7 @@ class Runner15(runner.Runner):
             lister = {'wf': db.get_workflow_definitions,
                       'env': db.get_environments,
                       'cron': db.get_cron_triggers,
+                      'evt': db.get_event_triggers,
                       'exec': db.get_workflow_executions,
                       'wb': db.get_workbooks,
                       'adef': db.get_action_definitions,
@@ -507,6 +527,9 @@ class Runner15(runner.Runner):
                     elif r['rtype'] == 'dyn':
                         db.update_dynamic_action_definition(
                             ident, {'class_name': 'by-' + actor})
+                    elif r['rtype'] == 'evt':
+                        db.update_event_trigger(
+                            ident, {'workflow_input': {'by': actor}})
                     elif r['rtype'] == 'cron':
                         db.update_cron_trigger(ident,
                                                {'remaining_executions': 7})
@@ -539,6 +562,8 @@ class Runner15(runner.Runner):
                         db.delete_code_source(r['id'])
                     elif r['rtype'] == 'dyn':
                         db.delete_dynamic_action_definition(r['id'])
+                    elif r['rtype'] == 'evt':
+                        db.delete_event_trigger(r['id'])
                     elif r['rtype'] == 'cron':
                         db.delete_cron_trigger(r['id'])
                     else:
